@@ -6,7 +6,7 @@ import inspect
 import z3
 
 from .state import OutOfSubset, SymRaise
-from .values import (BoundMethod, ClassVal, Cursor, DictObj, FrameObj, FuncVal, ListObj, ModuleVal, Opt, RecObj, Ref, Rope,
+from .values import (Unknown, BoundMethod, ClassVal, Cursor, DictObj, FrameObj, FuncVal, ListObj, ModuleVal, Opt, RecObj, Ref, Rope,
                      SetObj, is_strterm, norm_str)
 
 _MISSING = object()
@@ -62,6 +62,9 @@ def class_attr(I, st, pyclass, attr, recv, node):
     """Attribute found on the real class (methods, class constants)."""
     raw = _MISSING
     owner = None
+    if attr == "model_fields" and hasattr(pyclass, "model_fields"):
+        mf = getattr(pyclass, "model_fields")
+        return st.alloc(DictObj(items={k: Unknown(f"FieldInfo({k})") for k in mf}, fresh=True))
     for klass in pyclass.__mro__:
         if attr in klass.__dict__:
             raw = klass.__dict__[attr]
